@@ -464,6 +464,7 @@ func c13bRun(env *verifsim.Env, raw json.RawMessage) *verifsim.Violation {
 			return budget(err, fmt.Sprintf("settling after round %d", rd))
 		}
 		// the pull
+		pullStart := since
 		var rows []c13bRow
 		var revs map[string]string
 		var revDel map[string]bool
@@ -635,6 +636,13 @@ func c13bRun(env *verifsim.Env, raw json.RawMessage) *verifsim.Violation {
 				for _, id := range ids {
 					if _, ok := want[id]; !ok {
 						vio = verifsim.Vf("C13", pre+"silently-dropped", "replication protocol (%s replica): after pull %d the client still holds %s (rev %s) although the user can no longer fetch it (user channels %s; rows of this pull %v)", rep.name, rd, id, rep.m[id], chans, rows)
+						// recorded finding (database-level part): the document left (or was deleted in) a channel whose grant to the
+						// user was (re-)issued after the previous pull - one step may take a channel away as an admin channel and give
+						// it back through a role; that channel is then back-filled, and back-fill suppresses removal and deletion
+						// entries, while no revocation is sent for a channel the user has again
+						if c13bRegranted(n, id, pullStart) {
+							vio.Key = "removal-suppressed-by-regrant-backfill"
+						}
 						return
 					}
 				}
@@ -665,3 +673,42 @@ func c13bRun(env *verifsim.Env, raw json.RawMessage) *verifsim.Violation {
 }
 
 var _ = simnet.AltSever
+
+
+// c13bRegranted reports whether the document left (or was deleted in) a channel that the user holds through a grant
+// issued after the position the pull started from.
+func c13bRegranted(n *restNode, id, pullStart string) bool {
+	start := uint64(0)
+	part := pullStart
+	if i := strings.LastIndex(part, ":"); i >= 0 {
+		part = part[i+1:]
+	}
+	fmt.Sscanf(strings.Trim(part, `"`), "%d", &start)
+	dbc := n.database()
+	var coll *db.DatabaseCollection
+	for _, c := range dbc.CollectionByID {
+		coll = c
+	}
+	ctx := context.Background()
+	doc, err := coll.GetDocument(ctx, id, db.DocUnmarshalAll)
+	if err != nil || doc == nil {
+		return false
+	}
+	user, err := dbc.Authenticator(ctx).GetUser("alice")
+	if err != nil || user == nil {
+		return false
+	}
+	eff, err := user.InheritedCollectionChannels(coll.ScopeName, coll.Name)
+	if err != nil {
+		return false
+	}
+	for ch, rem := range doc.Channels {
+		if rem == nil && !doc.IsDeleted() {
+			continue
+		}
+		if g, ok := eff[ch]; ok && g.Sequence > start {
+			return true
+		}
+	}
+	return false
+}
